@@ -98,16 +98,90 @@ type World struct {
 	HbWrites  int64
 	Events    []fsmon.Event
 	KeepEvents bool
+
+	// fault injection: actor "process stop" after its j-th backend operation
+	opCount   map[string]int
+	stopAfter map[string]int
+	stopped   map[string]bool
+	onStop    map[string]func()
+	// StampLog records every stamp applied to the lock directory or a file in it (in application order).
+	StampLog []Stamp
+}
+
+// Stamp is one modification-time stamp applied to the lock directory or a file inside it.
+type Stamp struct {
+	Seq      int64     `json:"seq"`
+	Path     string    `json:"path"`
+	T        time.Time `json:"t"`
+	Explicit bool      `json:"explicit"`
+	Actor    string    `json:"actor"`
+	Inc      int       `json:"inc"`
+}
+
+var ErrStopped = fmt.Errorf("verif: process stopped (injected)")
+
+// StopAfter arranges that actor "dies" right after its j-th backend operation (counted from now):
+// every later operation of the actor fails without effect; onStop (if non-nil) is called at that point
+// (use it to cancel the actor's context so that its goroutines wind down).
+func (w *World) StopAfter(actor string, j int, onStop func()) {
+	w.mu.Lock()
+	w.opCount[actor] = 0
+	w.stopAfter[actor] = j
+	w.onStop[actor] = onStop
+	w.mu.Unlock()
+}
+
+// Stopped reports whether the actor has been stopped.
+func (w *World) Stopped(actor string) bool {
+	w.mu.Lock()
+	defer w.mu.Unlock()
+	return w.stopped[actor]
+}
+
+// OpCount returns the number of backend operations the actor has issued since StopAfter/start.
+func (w *World) OpCount(actor string) int {
+	w.mu.Lock()
+	defer w.mu.Unlock()
+	return w.opCount[actor]
+}
+
+func (w *World) before(e *fsmon.Event) {
+	w.mu.Lock()
+	if w.stopped[e.Actor] {
+		w.mu.Unlock()
+		e.Inject = ErrStopped
+		return
+	}
+	w.opCount[e.Actor]++
+	w.mu.Unlock()
+	w.S.Gate(e)
+}
+
+func (w *World) maybeStop(e *fsmon.Event) {
+	w.mu.Lock()
+	j, ok := w.stopAfter[e.Actor]
+	var f func()
+	if ok && j > 0 && w.opCount[e.Actor] >= j && !w.stopped[e.Actor] && e.Inject == nil {
+		w.stopped[e.Actor] = true
+		w.dead[e.Actor] = true
+		w.Hist = append(w.Hist, HistOp{Actor: e.Actor, Op: "die", Call: w.Mon.Tick(), Ret: w.Mon.Tick(), CallT: w.ms(), RetT: w.ms(), Val: fmt.Sprintf("after op %d (%s %s)", j, e.Op, filepath.Base(e.Path))})
+		f = w.onStop[e.Actor]
+	}
+	w.mu.Unlock()
+	if f != nil {
+		f()
+	}
 }
 
 // NewWorld creates the world. dir must exist (real OS directory, fresh per case).
 func NewWorld(dir, lockID string, s *sched.Sched) *World {
 	w := &World{Dir: dir, LockID: lockID, Base: filesystem.NewExtendedOsFs(), Mon: fsmon.NewMonitor(false), S: s,
 		curCall: map[string]string{}, incAtCall: map[string]int{}, releasing: map[string]bool{}, holding: map[string]bool{},
-		dead: map[string]bool{}, wasHolder: map[string]bool{}}
+		dead: map[string]bool{}, wasHolder: map[string]bool{},
+		opCount: map[string]int{}, stopAfter: map[string]int{}, stopped: map[string]bool{}, onStop: map[string]func(){}}
 	w.LockPath = filepath.Join(dir, fmt.Sprintf("%v-%v", filesystem.LockFilePrefix, lockID))
 	w.Rs = &sched.Restamper{Base: w.Base, OnStamp: w.onStamp}
-	w.Mon.Before = s.Gate
+	w.Mon.Before = w.before
 	w.Mon.After = w.after
 	w.Start = time.Now()
 	return w
@@ -141,6 +215,7 @@ func (w *World) onStamp(path string, t time.Time, explicit bool, e *fsmon.Event)
 		if t.After(w.cur.Newest) {
 			w.cur.Newest = t
 		}
+		w.StampLog = append(w.StampLog, Stamp{Seq: e.Seq, Path: path, T: t, Explicit: explicit, Actor: e.Actor, Inc: w.cur.ID})
 	}
 }
 
@@ -215,7 +290,10 @@ func (w *World) after(e *fsmon.Event) {
 		w.Events = append(w.Events, *e)
 		w.mu.Unlock()
 	}
-	w.Rs.After(e)
+	if e.Inject == nil {
+		w.Rs.After(e)
+	}
+	w.maybeStop(e)
 }
 
 // CurrentInc returns the id of the live incarnation (0 = none).
